@@ -976,6 +976,12 @@ class Interp:
         if len(set(op.modes)) != len(op.modes):
             raise OOD("repeated mode in an include call")
         mm = dict(zip(smodes, op.modes))
+        if asg:
+            # binding the parameters evaluates every symbolic variable of the sub-program as well
+            # (a division by zero there puts the call outside the domain)
+            for v in sub.vars.values():
+                if isinstance(v, (Sym, Arr)):
+                    subst(v, asg)
         for so in sub.ops:
             self.prog.ops.append(
                 RefOp(
